@@ -626,12 +626,22 @@ class AffineTransform(BaseTransform):
         return self.forward(x)[0]
 
     def forward(self, x):
+        if self._mean is None:
+            # Not fitted yet: identity
+            return copy_array(x, xp=self.xp), self.xp.zeros(
+                x.shape[0], device=get_device(x)
+            )
         y = (x - self._mean) / self._std
         return y, self.log_abs_det_jacobian * self.xp.ones(
             y.shape[0], device=get_device(y)
         )
 
     def inverse(self, y):
+        if self._mean is None:
+            # Not fitted yet: identity
+            return copy_array(y, xp=self.xp), self.xp.zeros(
+                y.shape[0], device=get_device(y)
+            )
         x = y * self._std + self._mean
         return x, -self.log_abs_det_jacobian * self.xp.ones(
             y.shape[0], device=get_device(y)
